@@ -130,7 +130,8 @@ class AuthSession(object):
         mechanism_name, mechanism_arg = self._parse_arg(arg)
         mechanism = self.auth.get_server(mechanism_name)
         if mechanism:
-            insecure = getattr(mechanism, 'insecure', False)
+            insecure = getattr(mechanism, 'insecure',
+                               mechanism_name in (b'PLAIN', b'LOGIN'))
             if insecure and not self.io.encrypted:
                 raise InsecureMechanismError()
             responses = []
